@@ -23,10 +23,13 @@ const (
 	T1m
 	Open
 	Close
+	// C2s: r2 is bound as a COPY of the shared reference r1 (`let r2: &T = r1;`): a second
+	// shared loan of place 1, and a use of r1
+	C2s
 	nEv
 )
 
-var evName = [...]string{"B1s", "B1m", "B2s", "B2m", "U1", "U2", "W1", "W2", "R1", "R2", "M1", "M2", "T1m", "bo", "bc"}
+var evName = [...]string{"B1s", "B1m", "B2s", "B2m", "U1", "U2", "W1", "W2", "R1", "R2", "M1", "M2", "T1m", "bo", "bc", "C2s"}
 
 type seq []ev
 
@@ -46,12 +49,12 @@ func (e ev) idx() int {
 	switch e {
 	case B1s, B1m, U1, W1, R1, M1, T1m:
 		return 0
-	case B2s, B2m, U2, W2, R2, M2:
+	case B2s, B2m, U2, W2, R2, M2, C2s:
 		return 1
 	}
 	return -1
 }
-func (e ev) isBind() bool      { return e <= B2m }
+func (e ev) isBind() bool      { return e <= B2m || e == C2s }
 func (e ev) bindMut() bool     { return e == B1m || e == B2m }
 func (e ev) isUse() bool       { return e == U1 || e == U2 || e == W1 || e == W2 } // uses the reference variable
 func (e ev) isWriteThru() bool { return e == W1 || e == W2 }
@@ -82,6 +85,9 @@ func enumerate(maxLen int, f func(s seq)) {
 				switch {
 				case e.isBind():
 					if bound[i] != 0 {
+						continue
+					}
+					if e == C2s && bound[0] != 1 {
 						continue
 					}
 					b2[i] = 1
@@ -126,6 +132,9 @@ func wellFormed(s seq) bool {
 		switch {
 		case e.isBind():
 			if bound[i] != 0 {
+				return false
+			}
+			if e == C2s && bound[0] != 1 {
 				return false
 			}
 			bound[i] = 1
@@ -217,6 +226,9 @@ func lastUses(s seq, blockGranular bool) (bind [2]int, last [2]int) {
 		switch {
 		case e.isBind():
 			bind[i], last[i], bindDepth[i] = j, j, depth
+			if e == C2s && bind[0] >= 0 && j > last[0] {
+				last[0] = j // the copy reads r1 (block granularity does not matter: same statement list or deeper is handled by the compiler's own rule, the precise model only needs >=)
+			}
 		case e.isUse():
 			u := j
 			if blockGranular && depth > bindDepth[i] {
@@ -255,6 +267,12 @@ func conflicts(s seq, paths [2][]string, blockGranular bool) []conflict {
 			mut[e.idx()] = e.bindMut()
 		}
 	}
+	loan := paths
+	for _, e := range s {
+		if e == C2s {
+			loan[1] = paths[0]
+		}
+	}
 	var out []conflict
 	for j, e := range s {
 		i := e.idx()
@@ -276,7 +294,7 @@ func conflicts(s seq, paths [2][]string, blockGranular bool) []conflict {
 			if bind[v] < 0 || !(bind[v] < j && j <= last[v]) {
 				continue
 			}
-			k := overlap(paths[v], paths[i])
+			k := overlap(loan[v], paths[i])
 			if k == ovNone {
 				continue
 			}
